@@ -451,4 +451,63 @@ def reproduceSpeciesP (o : EpochOpts W) (generation : Int) (s : Species W) (sort
       | .error e => .done (.error e)
       | .ok (st, rs') => .done (.ok ((st.babies, st.nextUid), rs'))
 
+/-! ### the epoch of the parallel executor (population_epoch.go, `ParallelPopulationEpochExecutor`) -/
+
+/-- a baby as the main goroutine decodes it from the wire (`Organism.UnmarshalBinary`): a fresh object (allocation id
+    `uid`) with the fields the wire format carries - fitness, generation, highest fitness, the champion-child flag and
+    the genome (plain genome format, C15) -/
+def decodeBaby (uid : Nat) (b : Org W) : Org W :=
+  { newOrganism uid b.genome b.generation with
+    fitness := b.fitness, highestFitness := b.highestFitness, isPopChampionChild := b.isPopChampionChild }
+
+def decodeAll : Nat → List (Org W) → List (Org W)
+  | _, [] => []
+  | uid, b :: bs => decodeBaby uid b :: decodeAll (uid + 1) bs
+
+/-- the results in the order the channel delivers them (`arrival` lists goroutine indices); the first error wins -/
+def collect (threads : List (Prog W (BRes W))) : List Nat → Except Stop (List (Org W))
+  | [] => .ok []
+  | t :: ts =>
+    match threads[t]? with
+    | some (.done (.ok ((babies, _), _))) =>
+      match collect threads ts with
+      | .error e => .error e
+      | .ok rest => .ok (babies ++ rest)
+    | some (.done (.error e)) => .error e
+    | _ => .error (.error "par:goroutineNotFinished")
+
+/-- everything the sequential model does not determine: the random numbers each goroutine happens to get from the
+    shared (locked) source, the interleaving of the registry operations, the order of arrival on the channel -/
+structure ParSchedule where
+  streams : List (List Nat)
+  sched : List Nat
+  arrival : List Nat
+
+/-- `ParallelPopulationEpochExecutor.reproduce`: one goroutine per species over the shared registry, `wg.Wait()`, the
+    babies decoded in order of arrival, size check, `speciate`.  (`wg.Wait()` + `range` over the closed channel deliver
+    every result exactly once: `arrival` must be a permutation of the goroutine indices and every goroutine must have
+    finished - schedules that do not satisfy this are not executions and are mapped to an error.) -/
+def parReproducePhase (o : EpochOpts W) (generation : Int) (p : Pop W) (ex : ExecState) (ps : ParSchedule) : Except Stop (Pop W) :=
+  let sorted := ex.sortedIds.filterMap (fun i => p.species.find? (·.id == i))
+  let threads := p.species.zipIdx.map (fun (s, i) => reproduceSpeciesP o generation s sorted p.reg p.nextUid (ps.streams.getD i []))
+  let st := runSched ({ reg := p.reg, threads := threads } : PState W (BRes W)) ps.sched
+  if ¬ ps.arrival.Perm (List.range threads.length) then .error (.error "par:arrivalNotAPermutation")
+  else
+    match collect st.threads ps.arrival with
+    | .error e => .error e
+    | .ok babies =>
+      if babies.length ≠ o.popSize then .error (.error "progenySizeMismatch")
+      else
+        speciate o { p with reg := st.reg } (decodeAll p.nextUid babies)
+
+/-- `ParallelPopulationEpochExecutor.NextEpoch`: sequential preparation, parallel reproduction, sequential finalisation
+    (the ghost allocation counter moves past the `PopSize` decoded babies) -/
+def parEpoch (o : EpochOpts W) (generation : Int) (p : Pop W) (ps : ParSchedule) : Rand (Pop W) := fun rs =>
+  match prepareForReproduction o p rs with
+  | .error e => .error e
+  | .ok ((p1, ex), rs1) =>
+    match parReproducePhase o generation p1 ex ps with
+    | .error e => .error e
+    | .ok p2 => .ok ({ finalizeReproduction p2 with nextUid := p1.nextUid + o.popSize }, rs1)
+
 end GoNeat.C16
